@@ -123,7 +123,7 @@ func (env *c10Env) call(what string, f func()) *vlib.Failure {
 		return nil
 	}
 	if fa, ok := pc.Value.(interface{ Addr() uintptr }); ok {
-		return vlib.Failf("%s: memory fault %s\n%s", what, env.where(fa.Addr()), pc.Stack)
+		return vlib.Failf("%s: memory fault (read outside accessible memory) %s\n%s", what, env.where(fa.Addr()), pc.Stack)
 	}
 	return vlib.Failf("%s panicked: %v\n%s", what, pc.Value, pc.Stack)
 }
@@ -871,7 +871,11 @@ func c10SelfCheck(c c10Case) error {
 func TestVerifC10(t *testing.T) {
 	st := vlib.For("C10")
 	defer vlib.Flush()
-	c10CheckCaptured(t) // builder self-test against the real block, once per shard
+	if os.Getenv("VERIF_C10_SKIP_CAPTURED") == "" {
+		// builder self-test against the real block, once per shard (the knob
+		// exists to measure what the generated cases alone detect)
+		c10CheckCaptured(t)
+	}
 	rapid.Check(t, func(t *rapid.T) {
 		c := c10Normalise(c10GenCase(t))
 		if err := c10SelfCheck(c); err != nil {
